@@ -51,3 +51,11 @@ for fn in ('url_set_host_or_hostname_0', 'url_set_host_or_hostname_1'):
                     bufn=6, unwind=10, defines=['STR_CAP=6', 'BUF_START=1', 'SETTER=' + fn], includes=INC + ['model/url_setter_ghost.h'], enums=[('ada::scheme::type', 'FILE')],
                     solver='cadical', timeout=1800, object_bits=11, bound='input <= 6 bytes, every string <= 6 bytes; sub-parsers abstract',
                     note='ada::url host setter skeleton: failure restores the object, the credentials/port record invariant is preserved, the length limit holds at every exit'))
+
+# the skeleton contract of url::parse_host that the ada::url host setter obligations rely on, proved on the real function
+_uh = ['url_parse_ipv6', 'url_parse_ipv4', 'url_parse_opaque_host', 'unicode_to_ascii']
+OBLS.append(Obl('C03.url.parse_host.skeleton', ['C03', 'C10', 'C19', 'C02'], 'B(8)', 'auto', roots=['url_parse_host'], enforce='url_parse_host', replace=_uh,
+                specs=dict({c: 'skel/%s.spec' % c for c in _uh}, url_parse_host='skel/url_parse_host.spec'),
+                bufn=8, unwind=20, defines=['STR_CAP=8', 'BUF_START=1'], includes=INC, globals=[('omitted', 'const unsigned int'), ('ipv4_fast_fail', 'const unsigned long')],
+                enums=[('ada::scheme::type', 'NOT_SPECIAL')], solver='cadical', timeout=1800, object_bits=11, bound='host <= 8 bytes',
+                note='url::parse_host: success => valid, host present and non-empty (unless the input was empty), credentials / port / scheme untouched; failure clears is_valid'))
